@@ -27,6 +27,9 @@ type Net struct {
 	pconns    map[int]*PacketConn
 	conns     map[*Conn]bool
 	nextPort  int
+	// OnAccept, when set, is called by Listener.Accept with the connection it is about to return (it may block:
+	// the harness decides what happens between "accepted by the kernel" and "seen by the caller").
+	OnAccept func(c net.Conn)
 	// Tap, when set, sees every stream write and every datagram ("tcp"/"udp", source, destination, bytes).
 	Tap func(kind string, src, dst net.Addr, data []byte)
 	// DialRecvBuf, when > 0, is the receive buffer of the DIALLING side of new stream connections (the
@@ -392,6 +395,12 @@ func (l *Listener) Accept() (net.Conn, error) {
 		if len(l.queue) > 0 {
 			c := l.queue[0]
 			l.queue = l.queue[1:]
+			if h := l.n.OnAccept; h != nil {
+				// the connection has left the backlog and has not reached the caller yet
+				l.mu.Unlock()
+				h(c)
+				l.mu.Lock()
+			}
 			return c, nil
 		}
 		l.cond.Wait()
@@ -577,6 +586,10 @@ func (pc *PacketConn) WriteTo(b []byte, addr net.Addr) (int, error) {
 	to, ok := addr.(*net.UDPAddr)
 	if !ok {
 		return 0, errors.New("memnet: WriteTo needs *net.UDPAddr")
+	}
+	if to.Port <= 0 || to.Port > 65535 {
+		// what the kernel answers (sendto: EINVAL) for a destination port that does not exist
+		return 0, &net.OpError{Op: "write", Net: "udp", Source: pc.addr, Addr: to, Err: os.NewSyscallError("sendto", syscall.EINVAL)}
 	}
 	from := &net.UDPAddr{IP: pc.addr.IP, Port: pc.addr.Port}
 	if from.IP == nil || from.IP.IsUnspecified() {
